@@ -20,7 +20,7 @@ TInit ==
 
 TNext ==
     /\ l <= Len(Trace)
-    /\ LET v == Verdict(Trace[l]) IN IF v = "ok" THEN TRUE ELSE PrintT(<<"REJECT", Trace[l].id, v>>)
+    /\ LET v == Verdict(Trace[l]) IN IF v[1] = "ok" THEN TRUE ELSE PrintT(<<"REJECT", Trace[l].id, v[1], v[2]>>)
     /\ l' = l + 1
     /\ UNCHANGED <<types, genNs, pc, ti, wi, first, made, index, linked, held, par, kids, out>>
 
